@@ -311,3 +311,18 @@ func Guard(property, facet string, c any, body func()) {
 	}()
 	body()
 }
+
+// ShardIndex returns the index of this shard process (0 when not sharded).
+func ShardIndex() int {
+	v, _ := strconv.Atoi(os.Getenv("VERIF_SHARD_INDEX"))
+	return v
+}
+
+// NShards returns the number of shard processes of this unit (>= 1).
+func NShards() int {
+	v, _ := strconv.Atoi(os.Getenv("VERIF_NSHARDS"))
+	if v < 1 {
+		return 1
+	}
+	return v
+}
